@@ -438,7 +438,7 @@ func (e *Env) call(n *ast.CallExpr) Val {
 		if _, ok := optionElem(v.Sort); !ok {
 			g.fail("present() on sort %s", v.Sort)
 		}
-		return Val{Sort: "Bool", Term: fmt.Sprintf("((_ is some) %s)", v.Term)}
+		return Val{Sort: "Bool", Term: fmt.Sprintf("((_ is some_%s) %s)", g.sorts.ensureOption(optEl(v.Sort)), v.Term)}
 	case "val":
 		need(1)
 		v := e.tr(args[0])
@@ -446,11 +446,11 @@ func (e *Env) call(n *ast.CallExpr) Val {
 		if !ok {
 			g.fail("val() on sort %s", v.Sort)
 		}
-		return Val{Sort: el, Term: fmt.Sprintf("(val %s)", v.Term)}
+		return Val{Sort: el, Term: fmt.Sprintf("(val_%s %s)", g.sorts.ensureOption(el), v.Term)}
 	case "some":
 		need(1)
 		v := e.tr(args[0])
-		return Val{Sort: "(Option " + v.Sort + ")", Term: fmt.Sprintf("(some %s)", v.Term)}
+		return Val{Sort: "(Option " + v.Sort + ")", Term: fmt.Sprintf("(some_%s %s)", g.sorts.ensureOption(v.Sort), v.Term)}
 	case "upd": // upd(table, k, v) / upd(table, k1, k2, v): table with an entry set to some(v)
 		if len(args) < 3 {
 			g.fail("upd(table, keys..., value)")
@@ -462,8 +462,8 @@ func (e *Env) call(n *ast.CallExpr) Val {
 		}
 		v := e.tr(args[len(args)-1])
 		return e.storeNested(t, keys, func(elSort string) string {
-			if _, ok := optionElem(elSort); ok {
-				return fmt.Sprintf("(some %s)", v.Term)
+			if oe, ok := optionElem(elSort); ok {
+				return fmt.Sprintf("(some_%s %s)", g.sorts.ensureOption(oe), v.Term)
 			}
 			return v.Term
 		})
@@ -477,10 +477,11 @@ func (e *Env) call(n *ast.CallExpr) Val {
 			keys = append(keys, e.tr(a))
 		}
 		return e.storeNested(t, keys, func(elSort string) string {
-			if _, ok := optionElem(elSort); !ok {
+			oe, ok := optionElem(elSort)
+			if !ok {
 				g.fail("del() on a table whose entries are %s", elSort)
 			}
-			return fmt.Sprintf("(as none %s)", elSort)
+			return "none_" + g.sorts.ensureOption(oe)
 		})
 	case "setf": // setf(structValue, Field, newValue)
 		need(3)
@@ -559,6 +560,25 @@ func (e *Env) call(n *ast.CallExpr) Val {
 		}
 		g.ensureSortNames(srt + " " + raw)
 		return Val{Sort: srt, Term: raw}
+	case "sprintf": // sprintf("format", args...): the same uninterpreted function the engine uses for fmt.Sprintf
+		if len(args) < 1 {
+			g.fail("sprintf(format, args...)")
+		}
+		format, _ := strconv.Unquote(args[0].(*ast.BasicLit).Value)
+		if g.concrete {
+			g.fail("sprintf() in specs is only available in abstract string mode; write the concatenation instead")
+		}
+		var sorts, terms []string
+		for _, a := range args[1:] {
+			v := e.tr(a)
+			sorts = append(sorts, v.Sort)
+			terms = append(terms, v.Term)
+		}
+		name := g.uf("sprintf_"+mangle(format), sorts, "Str")
+		if len(terms) == 0 {
+			return Val{Sort: "Str", Term: name}
+		}
+		return Val{Sort: "Str", Term: fmt.Sprintf("(%s %s)", name, strings.Join(terms, " "))}
 	case "zero": // zero("Sort")
 		need(1)
 		srt, _ := strconv.Unquote(args[0].(*ast.BasicLit).Value)
@@ -618,4 +638,9 @@ func (e *Env) storeNested(t Val, keys []Val, leaf func(elSort string) string) Va
 		return fmt.Sprintf("(store %s %s %s)", term, ks[0].Term, inner)
 	}
 	return Val{Sort: t.Sort, Term: rec(t.Term, t.Sort, keys)}
+}
+
+func optEl(sort string) string {
+	el, _ := optionElem(sort)
+	return el
 }
